@@ -153,6 +153,9 @@ struct Acts {
     guards: Vec<&'static str>,
     /// locals bound to an `Option` that is `Some` exactly under a guard
     env: HashMap<String, &'static str>,
+    /// what every simple local of the arm was bound to (`let key = format!(…);` — a lookup
+    /// key may be named before it is used)
+    bound: HashMap<String, String>,
 }
 
 fn negate(g: &'static str) -> &'static str {
@@ -193,7 +196,7 @@ fn strip_parens(mut s: &str) -> &str {
 
 impl Acts {
     fn new() -> Self {
-        Acts { out: vec![], guards: vec![], env: HashMap::new() }
+        Acts { out: vec![], guards: vec![], env: HashMap::new(), bound: HashMap::new() }
     }
     fn current(&self) -> &'static str {
         match self.guards.first() {
@@ -272,7 +275,15 @@ impl<'ast> Visit<'ast> for Acts {
             "define_function" => self.act("define"),
             "finalize_definitions" => self.act("finalize"),
             "get_finalized_function" => self.act("getFinalized"),
-            "get" if recv.ends_with(".functions") && norm(&m.args).contains("::generated::drop_") => self.act("lookupDrop"),
+            "get" if recv.ends_with(".functions") && {
+                // the key: `&format!("::generated::drop_{type_id}")`, or a local bound to that
+                let key = norm(&m.args);
+                let via_local = self.bound.get(key.trim_start_matches('&')).cloned().unwrap_or_default();
+                key.contains("::generated::drop_") || via_local.contains("::generated::drop_")
+            } =>
+            {
+                self.act("lookupDrop")
+            }
             "insert" if recv.ends_with(".roto_constants") => self.act("store"),
             _ => {}
         }
@@ -304,6 +315,7 @@ impl<'ast> Visit<'ast> for Acts {
             if let Some(g) = g {
                 self.env.insert(p.ident.to_string(), g);
             }
+            self.bound.insert(p.ident.to_string(), norm(&init.expr));
         }
         syn::visit::visit_local(self, l);
     }
@@ -513,6 +525,18 @@ fn mir_read(file: &syn::File) -> Result<(Vec<&'static str>, Vec<&'static str>), 
                     fields.push("tempFromConstant");
                 } else if init.starts_with("fields.iter().map(") && init.ends_with(".collect()") && !init.contains("self.") {
                     // the projection: a pure function of the field list
+                } else if init.strip_prefix("Self::").and_then(|r| r.strip_suffix("(fields)")).is_some_and(|helper| {
+                    // … or that function by name: an associated function without `self` whose body is that chain
+                    find::func(file, helper, Some("Lowerer")).is_ok_and(|h| {
+                        let body = h.block.stmts.iter().map(|s| norm(s)).collect::<Vec<_>>().join(" ");
+                        h.sig.receiver().is_none()
+                            && h.sig.inputs.len() == 1
+                            && h.block.stmts.len() == 1
+                            && body.contains(".iter().map(")
+                            && body.ends_with(".collect()")
+                            && !body.contains("self")
+                    })
+                }) {
                 } else {
                     return Err(format!("path_value, arm ValueKind::Constant: unrecognised statement `{}`", stmt_str(st)));
                 }
